@@ -154,6 +154,8 @@ def run_cmds(mods, scn):
     for c in scn["cmds"]:
         if c["cmd"] == "set_params" and c["args"][0] in ("process_noise", "sensor_noises"):
             c["args"][1] = canon[c["args"][1]]
+        if c["cmd"] == "set_params" and len(c["args"]) == 4 and c["args"][2] == "process_noise":
+            c["args"][3] = canon[c["args"][3]]
     init = scn["init"]
     cfg = python.Config(**{f: CFG_TOK[f][init["config"][f]] for f in CFG_TOK})
     # fresh copies of the noise maps for this run (fit may touch them)
